@@ -1208,6 +1208,11 @@ func (g *schemaGenerator) resolveRef(t *schemas.Type) (*schemas.Type, error) {
 		return t, nil
 	}
 
+	if t.Ref == "#" {
+		// Merging the document root into one of its own members would never end.
+		return nil, fmt.Errorf("%w: the document root cannot be an allOf/anyOf branch of itself", errCannotResolveRef)
+	}
+
 	if _, ok := g.schemaTypesByRef[t.Ref]; ok {
 		return g.schemaTypesByRef[t.Ref], nil
 	}
